@@ -30,7 +30,7 @@ def _work(args):
                 v = 'oracle raised: ' + traceback.format_exc()[-300:]
             if v:
                 orc.append((c, v))
-    return len(chunk), mism[:20], orc[:20], len(mism), len(orc)
+    return len(chunk), mism[:20], orc[:2000], len(mism), len(orc)
 
 
 def run(key, cases, line_of, py_of, oracle=None, chunk=2000, procs=None):
